@@ -1105,7 +1105,10 @@ class Interp:
 
     def index(self, sl, fr, g):
         if isinstance(sl, ast.Slice):
-            return slice(*(self.toint(self.expr(x, fr, g)) if x is not None else None for x in (sl.lower, sl.upper, sl.step)))
+            parts = [self.expr(x, fr, g) if x is not None else None for x in (sl.lower, sl.upper, sl.step)]
+            if any(isinstance(v, (Num, SBool, SInt, float)) for v in parts):
+                return slice(*parts)         # a coordinate interval (e.g. obj.cx[x0:x1, ...]), not an array slice
+            return slice(*(self.toint(v) for v in parts))
         if isinstance(sl, ast.Tuple):
             return tuple(self.index(e, fr, g) for e in sl.elts)
         v = self.expr(sl, fr, g)
